@@ -255,14 +255,20 @@ def real_gpt_new(self, mac):
 IsoHybridNew.real_hooks = {'pycdlib.isohybrid.GPT.new': real_gpt_new}
 
 
-def boot_image_obj(c, signature_ok=True):
-    """PyCdlib object with an El Torito catalog whose initial entry points at an external boot file"""
+def boot_image_obj(c, signature_ok=True, n_efi=0):
+    """PyCdlib object with an El Torito catalog whose initial entry points at an external boot file and which has n_efi further
+    entries in an EFI section"""
     data = bytearray(b'\x00' * 0x40 + (b'\xfb\xc0\x78\x70' if signature_ok else b'\x00\x00\x00\x00') + b'\x00' * 60)
     fp = c.file(bytes(data))
     ino = c.obj('pycdlib.inode.Inode', _initialized=True, manage_fp=False, data_fp=fp, original_data_location=2, fp_offset=0,
                 data_length=len(data), linked_records=[], boot_info_table=None, new_extent_loc=-1, num_udf=0)
     entry = c.obj('pycdlib.eltorito.EltoritoEntry', _initialized=True, sector_count=4, inode=ino)
-    cat = c.obj('pycdlib.eltorito.EltoritoBootCatalog', _initialized=True, initial_entry=entry)
+    val = c.obj('pycdlib.eltorito.EltoritoValidationEntry', _initialized=True, platform_id=0)
+    sections = []
+    if n_efi:
+        efi_entries = [c.obj('pycdlib.eltorito.EltoritoEntry', _initialized=True, sector_count=1, inode=None) for _ in range(n_efi)]
+        sections.append(c.obj('pycdlib.eltorito.EltoritoSectionHeader', _initialized=True, platform_id=0xef, section_entries=efi_entries))
+    cat = c.obj('pycdlib.eltorito.EltoritoBootCatalog', _initialized=True, initial_entry=entry, validation_entry=val, sections=sections)
     return c.obj('pycdlib.pycdlib.PyCdlib', _initialized=True, eltorito_boot_catalog=cat, logical_block_size=2048, isohybrid_mbr=None,
                  _needs_reshuffle=False, _always_consistent=False, pvds=[], joliet_vd=None, enhanced_vd=None, udf_root=None)
 
@@ -275,12 +281,21 @@ class AddIsoHybrid(Base):
     covers = ('return', 'raise:PyCdlibInvalidInput')
     efi = False
     mac = False
+    n_efi = None        # EFI boot images in the boot catalog (default: as many as the request needs)
     hooks = {'pycdlib.isohybrid.GPT.new': gpt_new_hook}
     real_hooks = {'pycdlib.isohybrid.GPT.new': lambda self, mac: setattr(self, '_initialized', True)}
 
+    def images(self):
+        return self.n_efi if self.n_efi is not None else (2 if self.mac else 1 if self.efi else 0)
+
+    def expected_covers(self):
+        if ((self.efi or self.mac) and self.images() < 1) or (self.mac and self.images() < 2):
+            return ('raise:PyCdlibInvalidInput',)
+        return self.covers
+
     def setup(self, c):
         a = c.a
-        a.self = boot_image_obj(c)
+        a.self = boot_image_obj(c, n_efi=self.images())
         a.part_entry = c.int('part_entry')
         a.mbr_id = c.int('mbr_id')
         a.part_offset = c.int('part_offset')
@@ -299,6 +314,9 @@ class AddIsoHybrid(Base):
 
     def raises(self, c, a):
         if self.mac and self.efi is False:
+            return {'PyCdlibInvalidInput': True}
+        # the GPT partitions describe EFI boot images of the catalog: one for EFI, two with Mac support (K66)
+        if ((self.efi or self.mac) and self.images() < 1) or (self.mac and self.images() < 2):
             return {'PyCdlibInvalidInput': True}
         return {'PyCdlibInvalidInput': Not(self.legal(a))}
 
